@@ -232,7 +232,7 @@ def addressEntry (m : Mem) : Fut → Except BuildError POp
 
 /-- the `other` operand of `Future.add` / `RegFuture.add`:
 returns (mem, load cmds, operand, temporary to release). A Future operand is loaded into a
-new temporary and NOT stored back (fixes of F30). -/
+new temporary and NOT stored back (fixes of F43). -/
 def addOther (m : Mem) : Val → Except BuildError (Mem × List PCmd × POp × Option Nat)
   | .lit v => .ok (m, [], .lit v, none)
   | .reg h =>
